@@ -53,21 +53,28 @@ def sources(body, op, transparent=TRANSPARENT, extra_transparent=(), stop=None, 
     seen = set()
     work = []
 
+    def fpath(proj):
+        return tuple(p[2] for p in proj if isinstance(p, list) and p[0] == ".")
+
     def push_op(o):
         if o[0] == "k":
             res.consts.append(o[1])
             return
         pl = o[1]
         res.fields.extend(_proj_fields(pl))
-        for l in mir.operand_locals(o):
-            if l not in seen:
-                seen.add(l)
-                work.append(l)
+        key = (pl[0], fpath(pl[1]))
+        if key not in seen:
+            seen.add(key)
+            work.append(key)
+        for p in pl[1]:
+            if isinstance(p, list) and p[0] == "[]" and (p[1], ()) not in seen:
+                seen.add((p[1], ()))
+                work.append((p[1], ()))
 
     push_op(op)
     argc = body.d["argc"]
     while work:
-        l = work.pop()
+        l, path = work.pop()
         res.locals.add(l)
         if 0 < l <= argc:
             res.args.add(l)
@@ -83,6 +90,12 @@ def sources(body, op, transparent=TRANSPARENT, extra_transparent=(), stop=None, 
                 else:
                     res.calls.append(c)
             else:
+                # a write to one field of the local is a definition only of reads of that field
+                # (or of the whole local): `(*_1.self).prev_seq = x` does not define `_1.self.other`
+                dp = fpath(d[3][1])
+                n = min(len(dp), len(path))
+                if dp[:n] != path[:n]:
+                    continue
                 rv = d[4]
                 k = rv[0]
                 if k == "bin":
@@ -178,3 +191,26 @@ def ok_blocks(body):
         if rv[0] == "agg" and rv[1] == "adt" and rv[2] == "core::result::Result" and rv[3] == "Ok":
             out.add(b)
     return out
+
+
+def resolve_bin(body, op, depth=0):
+    """the binary rvalue an operand is a copy of (looking through `.0` of checked arithmetic)"""
+    if op[0] == "k" or depth > 8:
+        return None
+    l, proj = op[1]
+    d = mir.single_def(body, l)
+    if not d or d[0] != "assign":
+        return None
+    rv = d[4]
+    if rv[0] == "bin":
+        if rv[1].endswith("WithOverflow"):
+            ok = len(proj) == 1 and isinstance(proj[0], list) and proj[0][0] == "." and proj[0][1] == 0
+            return rv if ok else None
+        return rv if not proj else None
+    if rv[0] == "use" and not proj:
+        return resolve_bin(body, rv[1], depth + 1)
+    return None
+
+
+def is_add(rv):
+    return rv is not None and rv[1] in ("Add", "AddWithOverflow")
